@@ -68,15 +68,25 @@ func (b *BufferBatchGetter) BatchGet(ctx context.Context, keys [][]byte, options
 		return b.snapshot.BatchGet(ctx, keys, options...)
 	}
 	shrinkKeys := make([][]byte, 0, len(keys)-len(bufferValues))
+	var deletedKeys map[string]struct{}
 	for _, key := range keys {
 		val, ok := bufferValues[string(key)]
 		if !ok {
+			// a key given more than once whose deletion was already taken out of the result below
+			// must not be read from the snapshot either.
+			if _, del := deletedKeys[string(key)]; del {
+				continue
+			}
 			shrinkKeys = append(shrinkKeys, key)
 			continue
 		}
 		// the deleted key should be removed from the result, and also no need to snapshot read it again.
 		if val.IsValueEmpty() {
 			delete(bufferValues, string(key))
+			if deletedKeys == nil {
+				deletedKeys = make(map[string]struct{})
+			}
+			deletedKeys[string(key)] = struct{}{}
 		}
 	}
 	storageValues, err := b.snapshot.BatchGet(ctx, shrinkKeys, options...)
@@ -116,15 +126,25 @@ func (b *BufferSnapshotBatchGetter) BatchGet(ctx context.Context, keys [][]byte,
 		return b.snapshot.BatchGet(ctx, keys, options...)
 	}
 	shrinkKeys := make([][]byte, 0, len(keys)-len(bufferValues))
+	var deletedKeys map[string]struct{}
 	for _, key := range keys {
 		val, ok := bufferValues[string(key)]
 		if !ok {
+			// a key given more than once whose deletion was already taken out of the result below
+			// must not be read from the snapshot either.
+			if _, del := deletedKeys[string(key)]; del {
+				continue
+			}
 			shrinkKeys = append(shrinkKeys, key)
 			continue
 		}
 		// the deleted key should be removed from the result, and also no need to snapshot read it again.
 		if val.IsValueEmpty() {
 			delete(bufferValues, string(key))
+			if deletedKeys == nil {
+				deletedKeys = make(map[string]struct{})
+			}
+			deletedKeys[string(key)] = struct{}{}
 		}
 	}
 	storageValues, err := b.snapshot.BatchGet(ctx, shrinkKeys, options...)
